@@ -28,7 +28,7 @@ MANIFEST = {
             "their slot at a gate (capture source stub / querier stub); len(sem), each query's state and status are compared "
             "with the model after every stable step, and N fresh queries must run concurrently afterwards.",
     "note": "Real time enters through the acquisition timeout (keep-alive): every query that the behaviour turns away gets its own "
-            "timeout so that the timers expire in the order of the behaviour, 100 ms away from any other step; a mismatch is only "
+            "timeout so that the timers expire in the order of the behaviour, 150 ms (engine) / 100 ms (distributed) away from any other step; a mismatch is only "
             "reported if it persists when the behaviour is repeated with 5x timing. Which waiting query gets a freed slot is FIFO in "
             "the replayed behaviours (Go channel order); the general model checked by TLC allows any. The engine's live-query path is used "
             "as the holding point; failures are a non-existing interface, a regexp without match, an unlistable DB directory "
@@ -37,7 +37,7 @@ MANIFEST = {
 }
 
 ACTIONS = ("PreFail", "TryAcquire", "Acquire", "Timeout", "Fail", "Cancel", "Release")
-GAP_MS = 100
+GAP_MS = {"engine": 150, "distributed": 100}
 
 
 def _gen_cfg(n, nq):
@@ -51,7 +51,7 @@ def _names(b):
 
 def _replay(vh, runner, behs, seed, db, workers=32, timeout=1500):
     args = ["sem-replay", "-runner", runner, "-seed", str(seed), "-workers", str(workers),
-            "-gap-ms", str(GAP_MS), "-db", db]
+            "-gap-ms", str(GAP_MS[runner]), "-db", db]
     rc, outs, _ = vlib.run_vh(vh, args, stdin_lines=[json.dumps(b, separators=(",", ":")) for b in behs], timeout=timeout)
     summ = [o for o in outs if o.get("summary")]
     vlib.require(summ and summ[0]["behaviours"] == len(behs), "sem-replay (%s) did not process all behaviours" % runner)
@@ -89,7 +89,7 @@ def main():
             behs += g.traces
             run.add_tlc(g, "SemaphoreGen N=%d NQ=%d (exhaustive)" % (n, nq))
         n_exh = len(behs)
-        sims = [(2, 4, 400), (1, 4, 200)] if not thorough else [(2, 4, 6000), (1, 4, 3000), (3, 5, 2000), (2, 5, 2000)]
+        sims = [(2, 4, 300), (1, 4, 150)] if not thorough else [(2, 4, 6000), (1, 4, 3000), (3, 5, 2000), (2, 5, 2000)]
         for n, nq, num in sims:
             g = vlib.tlc("semaphore", "SemaphoreGen", _gen_cfg(n, nq), workers=1, simulate=num, depth=4 * nq + 8,
                          seed=run.seed, scratch=sc, timeout=900)
@@ -118,7 +118,7 @@ def main():
                                                                              "fresh_ok", "retry_reasons")}
             vlib.require(summ["retried"] - summ["failed"] <= max(5, len(behs) // 50),
                          "%s: %d behaviours needed the slow second attempt (machine too loaded for %d ms gaps?)"
-                         % (runner, summ["retried"], GAP_MS))
+                         % (runner, summ["retried"], GAP_MS[runner]))
             for o in bad:
                 run.violation(o.get("desc", {"runner": runner}),
                               {"kind": "sem-replay", "runner": runner, "seed": run.seed + o.get("id", 0), "behaviour": o.get("behaviour"),
@@ -159,7 +159,7 @@ def main():
                        "runners; evaluations = stable-step comparisons (len(sem) + state/status of every query); distinct = "
                        "distinct (N, action sequence) in which a query had to wait (the limit was reached)"
                        % ", ".join("(%d,%d)" % (n, q) for n, q, _ in sims))
-    run.assumptions += ["acquisition timeouts planned per query with 100 ms gaps (5x on the confirming second attempt); queries are held at "
+    run.assumptions += ["acquisition timeouts planned per query with 150 / 100 ms gaps (5x on the confirming second attempt); queries are held at "
                         "the gate, not on a clock",
                         "freed slots go to the longest waiting query (Go channel order) in replayed behaviours",
                         "engine queries are live queries on an empty interface directory; one engine.QueryRunner serves the burst "
